@@ -109,6 +109,30 @@ twin!(#[fastrace::trace()] fn nested_p / nested_t (a: u32) -> u32 { here!(); log
 twin!(#[fastrace::trace()] fn unit_p / unit_t () { here!(); log("unit") });
 twin!(#[fastrace::trace()] fn impl_ret_p / impl_ret_t (a: u32) -> impl Iterator<Item = u32> { here!(); (0..a).map(|x| x * 2) });
 
+/// functions whose identifier is a single letter (the helper item inside func_path!() is called
+/// `f` too); not twins: the expected names are written out
+mod letters {
+    use super::*;
+    #[fastrace::trace]
+    pub fn f(a: u32) -> u32 {
+        log("f");
+        a + 100
+    }
+    pub mod f {
+        use super::super::*;
+        #[fastrace::trace]
+        pub fn f(a: u32) -> u32 {
+            log("ff");
+            a + 200
+        }
+        #[fastrace::trace]
+        pub fn g(a: u32) -> u32 {
+            log("fg");
+            a + 300
+        }
+    }
+}
+
 struct S {
     v: u32,
 }
@@ -495,6 +519,21 @@ impl Out {
 }
 
 fn check_all(out: &mut Out) {
+    for (id, call, want_value, want_name) in [
+        ("letters::f", (|| letters::f(1)) as fn() -> u32, 101u32, concat!(module_path!(), "::letters::f")),
+        ("letters::f::f", || letters::f::f(1), 201, concat!(module_path!(), "::letters::f::f")),
+        ("letters::f::g", || letters::f::g(1), 301, concat!(module_path!(), "::letters::f::g")),
+    ] {
+        out.evaluations += 1;
+        let t = run(true, false, false, &move || (d(call()), 0));
+        out.classes.insert(format!("{id}:true:ok"));
+        if t.outcome != format!("ok:{want_value}") {
+            out.violation(id, "outcome", format!("{id}: {:?}", t.outcome));
+        }
+        if t.records.len() != 1 || t.records[0].0 != want_name {
+            out.violation(id, "span-name", format!("{id} [under a root]: recorded {:?}, expected one span named {want_name:?}", t.records));
+        }
+    }
     for c in cases() {
         for (with_parent, in_local, per_poll) in [(true, false, false), (true, true, false), (false, false, false), (true, false, true)] {
             // a scope that only exists during each poll makes sense for the async twins
